@@ -1,6 +1,6 @@
 (* C03 model runner: one case per line on stdin, one result per line on stdout.
-   <id> FR <n> <limit> <start> <nf> <filters> <nodes> [#replay]   findRoots
-   <id> FP <n> <x> <nf> <filters> <nodes> [#replay]               opts.FindPredecessors(x)
+   <id> FR <n> <limit> <start> <lister> <nf> <filters> <nodes> [#replay]   findRoots (lister: 1 = ReferrerLister source)
+   <id> FP <n> <x> <lister> <nf> <filters> <nodes> [#replay]      opts.FindPredecessors(x)
    <id> AT <kind> <hexmat> <hexmcfg>                              fetchArtifactType
    <id> XC <resolves> <graphok> <tagok> <hexsrcref> <hexdstref>   ExtendedCopy wrapper
    filters: A0 | A <table> | N0 <hexkey> | N <hexkey> <table>;  table: hex=0|1,... or _
@@ -62,24 +62,25 @@ let rec parse_nodes (k : int) (toks : string list) =
       (kind_of kd, str_of_hex mat, str_of_hex mcfg, ann_of an, ps) :: parse_nodes (k - 1) r'
     | _ -> failwith "nodes"
 
-let source_of nodes =
+let source_of nodes lister =
   let arr = Array.of_list nodes in
   let get i = let j = int_of_nat i in if j < Array.length arr then Some arr.(j) else None in
   { s_preds = (fun i -> match get i with Some (_, _, _, _, ps) -> ps | None -> []);
     s_kind = (fun i -> match get i with Some (k, _, _, _, _) -> k | None -> KOther);
     s_mat = (fun i -> match get i with Some (_, a, _, _, _) -> a | None -> []);
     s_mcfg = (fun i -> match get i with Some (_, _, c, _, _) -> c | None -> []);
-    s_mann = (fun i -> match get i with Some (_, _, _, m, _) -> m | None -> None) }
+    s_mann = (fun i -> match get i with Some (_, _, _, m, _) -> m | None -> None);
+    s_lister = lister }
 
 let strip_replay toks = List.filter (fun t -> String.length t = 0 || t.[0] <> '#') toks
 
 let () =
   iter_lines (fun l ->
     match strip_replay (split_ws l) with
-    | id :: "FR" :: n :: limit :: start :: nf :: rest ->
+    | id :: "FR" :: n :: limit :: start :: lister :: nf :: rest ->
       let n = int_of_string n in
       let (fs, rest) = parse_filters (int_of_string nf) rest in
-      let src = source_of (parse_nodes n rest) in
+      let src = source_of (parse_nodes n rest) (lister = "1") in
       let node = { d_id = nat_of_int (int_of_string start); d_at = []; d_ann = None } in
       (match find_roots (fuel_for src (nat_of_int n)) src fs (z_of_int (int_of_string limit)) node with
        | None -> Printf.printf "%s FUEL\n" id
@@ -87,16 +88,16 @@ let () =
          let ids = List.sort_uniq compare (List.map (fun d -> int_of_nat d.d_id) roots) in
          Printf.printf "%s OK %s\n" id
            (if ids = [] then "-" else String.concat "," (List.map string_of_int ids)))
-    | id :: "FP" :: n :: x :: nf :: rest ->
+    | id :: "FP" :: n :: x :: lister :: nf :: rest ->
       let n = int_of_string n in
       let (fs, rest) = parse_filters (int_of_string nf) rest in
-      let src = source_of (parse_nodes n rest) in
+      let src = source_of (parse_nodes n rest) (lister = "1") in
       let ps = find_preds src fs (nat_of_int (int_of_string x)) in
       Printf.printf "%s P%s\n" id
         (String.concat "" (List.map (fun d ->
            Printf.sprintf " %d:%s:%s" (int_of_nat d.d_id) (hex_of_str d.d_at) (show_ann d.d_ann)) ps))
     | [id; "AT"; kd; mat; mcfg] ->
-      let src = source_of [ (kind_of kd, str_of_hex mat, str_of_hex mcfg, None, []) ] in
+      let src = source_of [ (kind_of kd, str_of_hex mat, str_of_hex mcfg, None, []) ] false in
       Printf.printf "%s T %s\n" id (hex_of_str (fetch_artifact_type src O))
     | [id; "XC"; res; gok; tok; sref; dref] ->
       let node = { d_id = nat_of_int 7; d_at = []; d_ann = None } in
